@@ -10,8 +10,9 @@ writes, clock advances, cleaner ticks with any set of nodes down, with every pla
 configuration `c`: expiries, node-type or cluster-type Redis, and EVERY dispatch function `c.place : CKey → Nat`
 (any number of nodes, any assignment of keys to nodes; one node = a constant function).
 -/
-import GoZero.C06.Proofs3
+import GoZero.C06.Proofs4
 import GoZero.C06.Flight
+import GoZero.C06.Refine
 namespace GoZero.C06
 
 /-! ## 1. Coherent reads -/
@@ -174,8 +175,132 @@ theorem ttl_finite_and_in_range (e j : Nat) (hj : j ≤ 1000) (he : 0 < e) :
   rwa [decide_eq_true_eq] at this
 
 /-- the configured expiries are positive after `newOptions` (defaults 7 days / 1 minute). -/
-theorem configured_expiries_positive (exp nf : Nat) :
-    0 < (Cfg.ofOptions exp nf).exp ∧ 0 < (Cfg.ofOptions exp nf).nf := cfg_pos exp nf
+theorem configured_expiries_positive (o : Options) :
+    0 < (Cfg.ofOptions o).exp ∧ 0 < (Cfg.ofOptions o).nf := cfg_pos o
+
+/-! ### nanosecond granularity: where the pinned rounding yields 0 seconds (defect), and the fix -/
+
+/-- the millisecond model is the exact nanosecond arithmetic restricted to whole milliseconds. -/
+theorem ttlSecNs_whole_ms (ms j : Nat) : ttlSecNs (ms * 1000000) j = ttlSec ms j := by
+  unfold ttlSecNs ttlSec
+  rw [← Nat.mul_assoc]
+  generalize (10500 - j) * ms = y
+  omega
+
+/-- for every expiry of at least 2 ns and every draw the pinned rounding gives at least one second … -/
+theorem ttlSecNs_pos (e j : Nat) (hj : j ≤ 1000) (he : 2 ≤ e) : 1 ≤ ttlSecNs e j := by
+  have h : 9500 * 2 ≤ (10500 - j) * e := Nat.mul_le_mul (by omega) he
+  unfold ttlSecNs
+  generalize (10500 - j) * e = x at h
+  omega
+
+/-- … but **DEFECT (witness)**: with `WithExpiry(1)` / `WithNotFoundExpiry(1)` — one nanosecond — and a draw above
+1/2 the jittered duration truncates to 0 ns, `int(math.Ceil(0))` is 0, and `SetexCtx(…, 0)` / `SetnxExCtx(…, 0)`
+store the row / the not-found marker WITHOUT a TTL (`ttl = 0` is the model's persistent key).  Reproduced on
+the real code: fixes/C06-ttl-at-least-one-second_demo_test.go (about 1 in 4 rows, 1 in 2 markers). -/
+theorem one_nanosecond_expiry_writes_a_persistent_key :
+    (∀ j, 500 < j → j ≤ 1000 → ttlSecNs 1 j = 0)
+    ∧ (setex St.init (0, .p 1) (.row 1 1 1) (ttlSecNs 1 1000) .explicit false).cache (0, .p 1)
+        = some ⟨.row 1 1 1, 0, .explicit⟩
+    ∧ (setnx St.init (0, .p 1) (ttlSecNs 1 1000) false).cache (0, .p 1) = some ⟨.ph, 0, .loaded⟩
+    ∧ (expire (setnx St.init (0, .p 1) (ttlSecNs 1 1000) false).cache 1000000000000) (0, .p 1) = some ⟨.ph, 0, .loaded⟩ := by
+  refine ⟨fun j h1 h2 => ?_, by decide, by decide, by decide⟩
+  unfold ttlSecNs
+  omega
+
+/-- the fixed rounding (`ttlSeconds`) is at least one second for EVERY expiry and draw (1 ns and the negative
+durations an overflow produces included: they are floored to 1 s) … -/
+theorem ttl_fixed_at_least_one_second (e j : Nat) : 1 ≤ ttlSecondsFixed e j := by
+  unfold ttlSecondsFixed; split <;> omega
+
+/-- … and changes nothing for any expiry of 2 ns or more. -/
+theorem ttl_fix_changes_nothing_above_1ns (e j : Nat) (hj : j ≤ 1000) (he : 2 ≤ e) :
+    ttlSecondsFixed e j = ttlSecNs e j := by
+  have := ttlSecNs_pos e j hj he
+  unfold ttlSecondsFixed; split <;> omega
+
+/-- `newOptions` spelled out: an option that is not given, zero or negative falls back to the default (7 days /
+1 minute); a positive one is taken as it is.  (The function itself is tied to the translated source:
+`Tie.tie_newOptionsTail`, `tie_newOptionsHead`.) -/
+theorem newOptions_defaults (o : Options) :
+    (newOptions o).1 = (match o.expiry with
+                        | some e => if e ≤ 0 then 7 * 24 * 3600 * 1000 else e.toNat
+                        | none => 7 * 24 * 3600 * 1000)
+    ∧ (newOptions o).2 = (match o.notFound with
+                          | some n => if n ≤ 0 then 60 * 1000 else n.toNat
+                          | none => 60 * 1000) := by
+  unfold newOptions newOptionsMs defaultExpiryMs defaultNotFoundExpiryMs
+  cases o.expiry <;> cases o.notFound <;> simp
+
+/-- **for every Options value** (option given or not; zero, negative, sub-second, huge) and every jitter draw,
+the TTL written for a row (`Set`, the load path) and the TTL written for the not-found marker are both within
+the property's ±5 % of the effective expiry, rounded up to seconds, and at least one second — never the `0`
+that go-redis turns into a persistent key. -/
+theorem ttl_finite_for_every_options (o : Options) (j : Nat) (hj : j ≤ 1000) :
+    (Spec.ttlLo (Cfg.ofOptions o).exp ≤ ttlSec (Cfg.ofOptions o).exp j ∧ ttlSec (Cfg.ofOptions o).exp j ≤ Spec.ttlHi (Cfg.ofOptions o).exp
+      ∧ 1 ≤ ttlSec (Cfg.ofOptions o).exp j)
+    ∧ (Spec.ttlLo (Cfg.ofOptions o).nf ≤ ttlSec (Cfg.ofOptions o).nf j ∧ ttlSec (Cfg.ofOptions o).nf j ≤ Spec.ttlHi (Cfg.ofOptions o).nf
+      ∧ 1 ≤ ttlSec (Cfg.ofOptions o).nf j) :=
+  ⟨ttl_finite_and_in_range _ j hj (cfg_pos o).1, ttl_finite_and_in_range _ j hj (cfg_pos o).2⟩
+
+/-- **never a persistent key** — for every Options value, every topology (Redis type, dispatch function) and
+every history of operations with every placement of faults: every entry in every node's Redis carries a TTL
+(`ttl = 0` is the model's persistent key: what `SetexCtx(…, 0)` / `SetnxExCtx(…, 0)` leave behind). -/
+theorem no_persistent_key (o : Options) (cl : Bool) (pl : CKey → Nat) (ops : List Op) (hl : ∀ op ∈ ops, OpLegal op) :
+    ∀ k e, (run { Cfg.ofOptions o with cluster := cl, place := pl } St.init ops).cache k = some e → 0 < e.ttl :=
+  run_finite { Cfg.ofOptions o with cluster := cl, place := pl } (cfg_pos o) init_finite ops hl
+
+/-- the not-found path: a miss on an absent row writes the marker `*` with `SET NX EX` and the jittered
+NOT-FOUND expiry (not the row expiry), on the key's node, and returns not-found after one database call. -/
+theorem notfound_placeholder_ttl (c : Cfg) (s : St) (pk j : Nat)
+    (hmiss : s.cache (c.slot (.p pk)) = none) (hr : dbRow s pk = none) :
+    (takeP c s pk j [] false).1.cache (c.slot (.p pk)) = some ⟨.ph, ttlSec c.nf j * 1000, .loaded⟩
+    ∧ (takeP c s pk j [] false).2.res = .notfound ∧ (takeP c s pk j [] false).2.q = 1
+    ∧ (takeP c s pk j [] false).2.cmds = [⟨.get, c.place (.p pk), [.p pk], false⟩, ⟨.setnx, c.place (.p pk), [.p pk], false⟩] := by
+  unfold Cfg.slot at hmiss
+  unfold takeP getCache setnx
+  simp [failAt, hmiss, hr, upd, Cfg.slot]
+
+/-- the same on the index path (`QueryRowIndex` → `TakeWithExpireCtx`): the marker goes under the INDEX key. -/
+theorem notfound_placeholder_ttl_index (c : Cfg) (s : St) (a j : Nat)
+    (hmiss : s.cache (c.slot (.x a)) = none) (hr : dbIndex s a = none) :
+    (qindex c s a j [] false).1.cache (c.slot (.x a)) = some ⟨.ph, ttlSec c.nf j * 1000, .loaded⟩
+    ∧ (qindex c s a j [] false).2.res = .notfound ∧ (qindex c s a j [] false).2.q = 1 := by
+  unfold Cfg.slot at hmiss
+  unfold qindex getCache setnx
+  simp [failAt, hmiss, hr, upd, Cfg.slot]
+
+/-- **a not-found marker never replaces a row** (NX semantics of `setCacheWithNotFound`).  Primitive level: `SET
+key "*" NX EX ttl` on an occupied slot changes nothing, whatever occupies it. -/
+theorem marker_setnx_keeps_occupied_slot (s : St) (k : Slot) (e : Entry) (he : s.cache k = some e) (t : Nat) (f : Bool) :
+    setnx s k t f = s := setnx_occupied he t f
+
+/-- Operation level (`Take` / `QueryRow`, and the second Take of the index path): an entry that is not the
+marker is never turned into the marker by a Take when it parses for its key (it is served from the cache) or
+when the DEL of the unparsable entry failed — the case in which the load path reaches `SET NX` with the slot
+still occupied (the database says not-found, the junk entry stays; a found row overwrites it with `SET`). -/
+theorem marker_never_replaces_an_entry (c : Cfg) (s : St) (pk j : Nat) (m : List Bool) (dbf : Bool) (k : Slot) (e : Entry)
+    (he : s.cache k = some e) (hrow : e.val ≠ .ph) (hkeep : parses k.2 e.val = true ∨ failAt m 1 = true) :
+    ∀ e', (takeP c s pk j m dbf).1.cache k = some e' → e'.val ≠ .ph :=
+  takeP_marker_never_replaces c s pk j m dbf k e he hrow hkeep
+
+/-- the same for the index path (`QueryRowIndex`): the marker never replaces an entry under the index key. -/
+theorem marker_never_replaces_an_index_entry (c : Cfg) (s : St) (a j : Nat) (m : List Bool) (dbf : Bool) (e : Entry)
+    (he : s.cache (c.slot (.x a)) = some e) (hrow : e.val ≠ .ph)
+    (hkeep : parses (.x a) e.val = true ∨ failAt m 1 = true) :
+    ∀ e', (qindex c s a j m dbf).1.cache (c.slot (.x a)) = some e' → e'.val ≠ .ph :=
+  qindex_marker_never_replaces c s a j m dbf e he hrow hkeep
+
+/-- non-vacuity of the NX case: junk under `p1` whose DEL fails, the row is absent: the Take returns not-found,
+issues GET, DEL (failed), SET NX — and the junk is still there; with the DEL succeeding the marker is written. -/
+example :
+    let c : Cfg := { exp := 20000, nf := 3000 }
+    let s := run c St.init [.raw (.p 1) (.junk 3) 5000]
+    (takeP c s 1 500 [false, true] false).1.cache (0, .p 1) = some ⟨.junk 3, 5000, .explicit⟩
+    ∧ (takeP c s 1 500 [false, true] false).2.res = .notfound
+    ∧ (takeP c s 1 500 [false, true] false).2.cmds.map (·.cmd) = [.get, .del, .setnx]
+    ∧ (takeP c s 1 500 [] false).1.cache (0, .p 1) = some ⟨.ph, 3000, .loaded⟩ := by
+  refine ⟨by decide, by decide, by decide, by decide⟩
 
 /-- what a Take writes: only under its own key, a `loaded` entry, the placeholder with the jittered not-found
 expiry or the row with the jittered expiry. -/
@@ -269,6 +394,59 @@ example : ∃ s, Flight.Reachable (fun g => g + 100) s ∧ s.pc 0 = 4 ∧ s.pc 1
     ∧ s.got 0 = some 100 ∧ s.got 1 = some 100 ∧ s.got 2 = some 101 ∧ s.queries = 2 ∧ s.gen = 2 := by
   refine ⟨_, .step 2 (.step 2 (.step 2 (.step 1 (.step 0 (.step 1 (.step 0 (.step 0 .init rfl) rfl) rfl) rfl) rfl) rfl) rfl) rfl,
     rfl, rfl, rfl, rfl, rfl, rfl, rfl, rfl⟩
+
+/-! ### the concurrent clause linked to the store model (round 3, Refine.lean) -/
+
+/-- **refinement of the concurrent readers to the sequential store model.**  `Conc.cstep` is the flight group of
+`Flight.lean` with the oracle replaced by the store: the function the leader of call `g` runs inside `DoEx` is
+`takeP` on the shared store with that call's environment `env g` (jitter, cache faults, database fault).  For
+any number of reader goroutines and every schedule, every reachable state is explained by a SEQUENTIAL history
+of `gen` Takes (`Conc.seqRun`): the store is the store after them, the database was called as often as they
+call it, every reader that has returned holds the result of sequential Take number `joined t` (< `gen`), and at
+most one goroutine is inside the load. -/
+theorem conc_refines_seq (c : Cfg) (pk : Nat) (env : Nat → Conc.In) (s0 : St) (x : Conc.CSt)
+    (h : Conc.CReach c pk env s0 x) :
+    x.store = Conc.seqRun c pk env s0 x.fl.gen
+    ∧ x.dbq = Conc.seqQ c pk env s0 x.fl.gen
+    ∧ (∀ t, x.fl.pc t = 4 → x.fl.joined t < x.fl.gen ∧ x.fl.got t = some (Conc.seqRes c pk env s0 (x.fl.joined t)))
+    ∧ (∀ t u, x.fl.pc t = 2 → x.fl.pc u = 2 → t = u) := by
+  have hs := Conc.sim_reachable h
+  refine ⟨hs.store, hs.dbq, fun t ht => ?_, fun t u ht hu => single_loader_per_key _ _ hs.fl t u ht hu⟩
+  have := readers_receive_the_query_result _ _ hs.fl t ht
+  exact ⟨this.2.1, this.1⟩
+
+/-- **k concurrent readers of an uncached key = one loading Take + cache hits.**  Without faults, whatever the
+schedule and the number of readers and however many flights they form: every reader that has returned received
+what the database holds (row or not-found), the database was queried at most once — exactly once as soon as a
+flight has finished — and the store is the store after a SINGLE sequential `takeP`. -/
+theorem concurrent_readers_one_load (c : Cfg) (pk : Nat) (env : Nat → Conc.In) (s0 : St) (x : Conc.CSt)
+    (h : Conc.CReach c pk env s0 x) (hf : Conc.FaultFree env) (hmiss : s0.cache (c.slot (.p pk)) = none) :
+    (∀ t, x.fl.pc t = 4 → x.fl.got t = some (Spec.expected s0 (.p pk)))
+    ∧ x.dbq ≤ 1
+    ∧ (0 < x.fl.gen → x.dbq = 1 ∧ x.store = (takeP c s0 pk (env 0).j [] false).1) := by
+  obtain ⟨hst, hq, hret, _⟩ := conc_refines_seq c pk env s0 x h
+  have hfirst := Conc.first_take_loads c pk env s0 hf hmiss
+  refine ⟨fun t ht => ?_, ?_, fun hg => ?_⟩
+  · rw [(hret t ht).2, (Conc.later_takes_hit c pk env s0 hf hmiss _).2.1, hfirst.2.1]
+  · cases hgen : x.fl.gen with
+    | zero => rw [hq, hgen]; simp [Conc.seqQ]
+    | succ g => rw [hq, hgen, (Conc.later_takes_hit c pk env s0 hf hmiss g).2.2]; exact Nat.le_refl 1
+  · obtain ⟨g, hgen⟩ : ∃ g, x.fl.gen = g + 1 := ⟨x.fl.gen - 1, by omega⟩
+    refine ⟨by rw [hq, hgen, (Conc.later_takes_hit c pk env s0 hf hmiss g).2.2], ?_⟩
+    rw [hst, hgen, (Conc.later_takes_hit c pk env s0 hf hmiss g).1]
+    simp only [Conc.seqRun, Conc.seqTake, (hf 0).1, (hf 0).2]
+
+/-- non-vacuity: three readers of the uncached, absent row 7 — goroutine 0 leads, 1 joins, both return; a late
+third reader forms a second flight and is served from the cache: one database call, two flights, every reader
+holds not-found, the store holds the marker written once. -/
+example :
+    let c : Cfg := { exp := 20000, nf := 3000 }
+    ∃ x, Conc.CReach c 7 (fun _ => {}) St.init x ∧ x.fl.pc 0 = 4 ∧ x.fl.pc 1 = 4 ∧ x.fl.pc 2 = 4
+      ∧ x.fl.gen = 2 ∧ x.dbq = 1 ∧ x.fl.got 2 = some .notfound
+      ∧ x.store.cache (0, .p 7) = some ⟨.ph, 3000, .loaded⟩ := by
+  refine ⟨_, .step 2 (.step 2 (.step 2 (.step 1 (.step 0 (.step 1 (.step 0 (.step 0 .init rfl) rfl) rfl) rfl) rfl) rfl) rfl) rfl,
+    rfl, rfl, rfl, rfl, rfl, rfl, ?_⟩
+  decide
 
 /-! ## 6. Invalidation across nodes -/
 
@@ -382,6 +560,22 @@ example : (takeP { exp := 20000, nf := 3000 } (run { exp := 20000, nf := 3000 } 
     = { res := .notfound, q := 0, cmds := [⟨.get, 0, [.p 7], false⟩] } := by decide
 
 example : (run { exp := 20000, nf := 3000 } St.init [.take 7 0 [] false]).cache (0, .p 7) = some ⟨.ph, 4000, .loaded⟩ := by decide
+
+/-- option values at the sanity checks' boundary and beyond: 0 and −1 ms fall back to the defaults, 1 ms is kept
+(TTL 1 s for every draw), 999 ms / 1000 ms / 1001 ms give 1 s or 2 s, a year gives a year ± 5 %. -/
+example : newOptions {} = (604800000, 60000) ∧ newOptions { expiry := some 0, notFound := some 0 } = (604800000, 60000)
+    ∧ newOptions { expiry := some (-1), notFound := some (-60000) } = (604800000, 60000)
+    ∧ newOptions { expiry := some 1, notFound := some 999 } = (1, 999)
+    ∧ ttlSec 1 0 = 1 ∧ ttlSec 1 1000 = 1 ∧ ttlSec 999 0 = 2 ∧ ttlSec 999 1000 = 1 ∧ ttlSec 1000 500 = 1 ∧ ttlSec 1000 499 = 2
+    ∧ ttlSec 60000 0 = 63 ∧ ttlSec 60000 1000 = 57 ∧ ttlSec 31536000001 1000 = 29959201 := by decide
+
+/-- `no_persistent_key` is not vacuous: with `WithNotFoundExpiry(0)` a read of an absent row leaves the marker
+with the default not-found TTL; had `newOptions` kept the 0 (`{ nf := 0 }`), the marker would be persistent. -/
+example :
+    (run (Cfg.ofOptions { notFound := some 0 }) St.init [.take 7 500 [] false]).cache (0, .p 7) = some ⟨.ph, 60000, .loaded⟩
+    ∧ (run { exp := 20000, nf := 0 } St.init [.take 7 500 [] false]).cache (0, .p 7) = some ⟨.ph, 0, .loaded⟩
+    ∧ (run { exp := 20000, nf := 0 } St.init [.take 7 500 [] false, .ft 1000000000]).cache (0, .p 7) = some ⟨.ph, 0, .loaded⟩ := by
+  refine ⟨by decide, by decide, by decide⟩
 
 example : ttlSec 20000 0 = 21 ∧ ttlSec 20000 1000 = 19 ∧ ttlSec 20000 500 = 20 ∧ ttlSec 1 1000 = 1
     ∧ Spec.ttlLo 20000 = 19 ∧ Spec.ttlHi 20000 = 21 := by decide
